@@ -43,6 +43,9 @@ def cases(tier: str, seed: int) -> List[Dict[str, Any]]:
         out.append({"kind": "set", "E": E, "M": M, "nm": nm, "seed": seed})
         out.append({"kind": "layout", "E": E, "M": M, "seed": seed})
         out.append({"kind": "props", "E": E, "M": M})
+    # histories: several formats used in sequence in one process (no state may leak between them)
+    for seq in ([[4, 3], [5, 2], [4, 3]], [[2, 1], [8, 23], [2, 1], [5, 10]], [[8, 0], [3, 4], [8, 7], [3, 4]]):
+        out.append({"kind": "history", "E": seq[0][0], "M": seq[0][1], "seq": seq, "seed": seed})
     nblk = 256
     for E, M in ([4, 3], [5, 2]):
         for b in range(nblk):
@@ -156,6 +159,19 @@ def run_case(case: Dict[str, Any]) -> Dict[str, Any]:
             viol.append({"key": "props|bits", "msg": f"E{E}M{M}: {fmt.bits}"})
         return {"violations": viol, "steps": 4, "n_states": 1, "outcome": "props"}
 
+    if kind == "history":
+        viol = []
+        n = 0
+        for pos, (e_, m_) in enumerate(case["seq"]):
+            f_ = FPFormat(e_, m_, rounding="nearest")
+            x = _struct_inputs(e_, m_, 6, case["seed"])
+            q = f_.quantise(x)
+            n += x.numel()
+            for v in _check(x, q, e_, m_, f"history_pos{pos}", f_, full=False):
+                viol.append(v)
+            # the stochastic twin of the same format must not disturb a later nearest call
+            FPFormat(e_, m_, rounding="stochastic").quantise(x[:16])
+        return {"violations": viol[:4], "steps": n, "n_states": n, "outcome": "history"}
     if kind == "set":
         x = _struct_inputs(E, M, case["nm"], case["seed"])
         x0 = x.clone()
